@@ -207,6 +207,101 @@ theorem addTables_facts (env : Env) (s : Sys) (hi : Inv s) (i : Nat) (ts : List 
             · rw [hu] at h2; simp at h2
 
 
+theorem disk_root_of_lock {d : Disk} (hd : ∀ m, d.manifest = some m → m.WF ∧ m.lock ≠ none) {cur : Contents} (hc : cur.WF)
+    (h : d.lock = cur.lock) : d.root = cur.root := by
+  cases hm : d.manifest with
+  | none =>
+    simp only [Disk.lock, hm] at h
+    simp only [Disk.root, hm]
+    unfold Contents.WF at hc; rw [← h] at hc; exact hc.symm
+  | some m =>
+    simp only [Disk.lock, hm] at h
+    simp only [Disk.root, hm]
+    exact Contents.WF.root_eq (hd m hm).1 hc h
+
+/-- landing a conjoin never moves the root, keeps every manifest well formed, and hands back a well-formed manifest -/
+theorem conjoinLand_facts (cs : List Table) (c : Table) : ∀ (fuel : Nat) (d : Disk) (cur : Contents),
+    (∀ m, d.manifest = some m → m.WF ∧ m.lock ≠ none) → cur.WF →
+    (∀ m, (conjoinLand d cs c cur fuel).1.manifest = some m → m.WF ∧ m.lock ≠ none) ∧
+    (conjoinLand d cs c cur fuel).1.root = d.root ∧ (conjoinLand d cs c cur fuel).2.1.WF := by
+  intro fuel
+  induction fuel with
+  | zero => intro d cur hd hc; exact ⟨hd, rfl, hc⟩
+  | succ n ih =>
+    intro d cur hd hc
+    unfold conjoinLand
+    split
+    · simp only
+      rcases hu : d.update cur.lock (conjoinContents cs c cur) with ⟨d', ur⟩
+      have hu1 : (d.update cur.lock (conjoinContents cs c cur)).1 = d' := by rw [hu]
+      have hu2 : (d.update cur.lock (conjoinContents cs c cur)).2 = ur := by rw [hu]
+      cases ur with
+      | wrote nn =>
+        rcases update_cases d cur.lock (conjoinContents cs c cur) with ⟨_, h2⟩ | ⟨h1, h2, h3, _⟩
+        · exact absurd hu2 (h2 nn)
+        · rw [hu2] at h2; injection h2 with h2; subst h2
+          rw [hu1] at h1; subst h1
+          refine ⟨?_, ?_, mk_wf _ _⟩
+          · intro m hm; simp at hm; subst hm; exact ⟨mk_wf _ _, mkLock_ne_none _ _⟩
+          · simp only [Disk.root, conjoinContents]; exact (disk_root_of_lock hd hc h3).symm
+      | stale up =>
+        obtain ⟨hm, hd'⟩ := update_stale d _ _ up hu2
+        rw [hu1] at hd'; subst hd'
+        simp only
+        split
+        · exact ⟨hd, rfl, (hd up hm).1⟩
+        · exact ih d' up hd (hd up hm).1
+      | fail e =>
+        have hd' : d' = d := by
+          rcases update_cases d cur.lock (conjoinContents cs c cur) with ⟨h1, _⟩ | ⟨_, h2, _⟩
+          · rw [← hu1, h1]
+          · rw [hu2] at h2; simp at h2
+        subst hd'
+        exact ⟨hd, rfl, hc⟩
+    · exact ⟨hd, rfl, hc⟩
+
+theorem conjoin_facts (env : Env) (s : Sys) (hi : Inv s) (i : Nat) (hpc : (s.hs i).pc = none)
+    (x : Disk × Handle × Option Err) (hx : x = conjoinAll s.disk (s.hs i)) (r : Resp) :
+    StepFacts s { disk := x.1, hs := fun j => if j = i then x.2.1 else s.hs j } (.conjoin i) r := by
+  have ha : ackOf s (.conjoin i) r = none := ackOf_none_of_not_cresume _ _ _ (by intro j h; cases h)
+  have key : ∀ (d' : Disk) (h' : Handle), (∀ m, d'.manifest = some m → m.WF ∧ m.lock ≠ none) → d'.root = s.disk.root →
+      h'.upstream.WF → h'.pc = none →
+      StepFacts s { disk := d', hs := fun j => if j = i then h' else s.hs j } (.conjoin i) r := by
+    intro d' h' hd hroot hw hp
+    refine ⟨⟨hd, ?_, ?_⟩, by intro l c h; rw [ha] at h; simp at h, by intro l c i p h; rw [ha] at h; simp at h,
+      fun _ => hroot, by intro _ h; simp [Op.isAddTables] at h⟩
+    · intro j; simp only; split
+      · exact hw
+      · exact hi.up j
+    · intro j q; simp only; split
+      · intro h; rw [hp] at h; simp at h
+      · exact hi.pc j q
+  unfold conjoinAll at hx
+  split at hx
+  · subst hx; exact key _ _ hi.disk rfl (hi.up i) hpc
+  split at hx
+  · subst hx; exact key _ _ hi.disk rfl (hi.up i) hpc
+  · simp only at hx
+    have hf := conjoinLand_facts (s.hs i).upTables (conjoinedTable (s.hs i).upTables) 4
+      { s.disk with files := if s.disk.files.contains (conjoinedTable (s.hs i).upTables) then s.disk.files
+                             else s.disk.files ++ [conjoinedTable (s.hs i).upTables] }
+      (s.hs i).upstream hi.disk (hi.up i)
+    split at hx
+    · rename_i d1 m landed e hl
+      subst hx
+      rw [hl] at hf
+      exact key _ _ hf.1 hf.2.1 (hi.up i) hpc
+    · rename_i d1 m landed hl
+      rw [hl] at hf
+      split at hx
+      · subst hx; exact key _ _ hf.1 hf.2.1 (hi.up i) hpc
+      · subst hx
+        refine key _ _ ?_ ?_ hf.2.2 hpc
+        · intro mm hmm; apply hf.1 mm; split at hmm <;> exact hmm
+        · have : ∀ dd : Disk, (if landed = true then ({ dd with files := dd.files.filter (fun t => !(s.hs i).upTables.contains t) } : Disk) else dd).root = dd.root := by
+            intro dd; split <;> rfl
+          rw [this]; exact hf.2.1
+
 theorem step_facts (env : Env) (s : Sys) (hi : Inv s) (op : Op) :
     StepFacts s (s.step env op).1 op (s.step env op).2 := by
   cases op with
@@ -309,9 +404,17 @@ theorem step_facts (env : Env) (s : Sys) (hi : Inv s) (op : Op) :
       have hpc : (s.hs i).pc = none := by
         cases h : (s.hs i).pc <;> simp [h] at hg ⊢
       exact addTables_facts env s hi i ts hpc _ rfl _
+  | conjoin i =>
+    simp only [Sys.step]
+    split
+    · exact facts_refl hi _ _ (ackOf_none_of_not_cresume _ _ _ (by intro j h; cases h))
+    · rename_i hg
+      have hpc : (s.hs i).pc = none := by
+        cases h : (s.hs i).pc <;> simp [h] at hg ⊢
+      exact conjoin_facts env s hi i hpc _ rfl _
 
-theorem land_manifest (s : Sys) (i : Nat) : (s.land i).disk.manifest = s.disk.manifest := rfl
-theorem land_hs (s : Sys) (i : Nat) : (s.land i).hs = s.hs := rfl
+theorem land_manifest (s : Sys) (i : Nat) (b : List Table) : (s.land i b).disk.manifest = s.disk.manifest := rfl
+theorem land_hs (s : Sys) (i : Nat) (b : List Table) : (s.land i b).hs = s.hs := rfl
 
 theorem next_resp (env : Env) (s : Sys) (op : Op) : (s.next env op).2 = (s.step env op).2 := by
   unfold Sys.next; cases op <;> rfl
